@@ -9,6 +9,7 @@
 #include <cstdint>
 #include <string>
 #include <type_traits>
+#include <vector>
 
 namespace ref {
 
@@ -51,5 +52,34 @@ inline bool fold_equal_n(const char *a, size_t la, const char *b, size_t lb, siz
 }
 inline std::string lower(const std::string &s) { std::string o = s; for (char &c : o) c = (char)fold((unsigned char)c); return o; }
 inline std::string upper(const std::string &s) { std::string o = s; for (char &c : o) c = (char)unfold((unsigned char)c); return o; }
+
+// ---- additions for containers keyed by the library's order / equality / hashes (C06 extension) ----------------
+// An ordered or hashed container whose comparator realises the stated order must keep exactly one element per
+// distinct value (resp. per class of values equal after folding A-Z), and an ordered one must iterate in the
+// reference order.
+template <class T> inline size_t count_distinct(const std::vector<std::vector<T>> &v) {
+    size_t n = 0;
+    for (size_t i = 0; i < v.size(); i++) {
+        bool seen = false;
+        for (size_t j = 0; j < i && !seen; j++) seen = cmp(v[i].data(), v[i].size(), v[j].data(), v[j].size()) == 0;
+        if (!seen) n++;
+    }
+    return n;
+}
+inline size_t count_fold_classes(const std::vector<std::vector<char>> &v) {
+    size_t n = 0;
+    for (size_t i = 0; i < v.size(); i++) {
+        bool seen = false;
+        for (size_t j = 0; j < i && !seen; j++) seen = fold_equal(v[i].data(), v[i].size(), v[j].data(), v[j].size());
+        if (!seen) n++;
+    }
+    return n;
+}
+// the values in non-decreasing reference order (insertion sort; a handful of operands)
+template <class T> inline std::vector<std::vector<T>> sorted_by_cmp(std::vector<std::vector<T>> v) {
+    for (size_t i = 1; i < v.size(); i++)
+        for (size_t j = i; j > 0 && cmp(v[j].data(), v[j].size(), v[j - 1].data(), v[j - 1].size()) < 0; j--) v[j].swap(v[j - 1]);
+    return v;
+}
 
 }  // namespace ref
